@@ -49,9 +49,31 @@ func randStep(t *rapid.T) vat.Step {
 	return s
 }
 
+// skeletons for the rarer reference-count situations; drawn steps are interleaved with them
+var skeletons = map[string][]vat.Step{
+	// a call carrying a local capability is cancelled, then answered with releaseParamCaps
+	"cancelled-call-with-param-cap": {{K: "p-boot"}, {K: "a-boot"}, {K: "p-return", C: 1}, {K: "a-call", A: 15, B: 2}, {K: "a-cancel", A: 15}, {K: "p-return", A: 0, B: 0, C: 0}},
+	// the same for a call that is not cancelled, and one whose param export is also held through another descriptor
+	"return-releases-param-cap": {{K: "p-boot"}, {K: "a-boot"}, {K: "p-return", C: 1}, {K: "a-call", A: 15, B: 2}, {K: "a-call", A: 15, B: 2}, {K: "p-return", A: 0, B: 0, C: 0}, {K: "p-return", A: 0, B: 3, C: 0}},
+	// Finish with releaseResultCaps before the Return of a call that returns capabilities
+	"finish-rrc-before-return": {{K: "p-boot"}, {K: "p-call", B: 0x11}, {K: "p-call", B: 0x51}, {K: "p-finish", A: 15, B: 1}, {K: "p-finish", A: 15, B: 1}, {K: "open"}, {K: "open"}},
+	// one object exported several times, released in parts
+	"partial-releases": {{K: "p-boot"}, {K: "p-call", B: 0x10}, {K: "p-call", A: 15, B: 0x60, C: 4 + 8}, {K: "p-call", A: 15, B: 0x60, C: 4 + 8}, {K: "p-release", A: 15, B: 0}, {K: "p-finish", A: 15, B: 1}, {K: "p-release", A: 15, B: 1}, {K: "p-release", A: 15, B: 0}},
+	// the application passes its only reference to a peer capability back to the peer
+	"import-handed-back": {{K: "p-boot"}, {K: "a-boot"}, {K: "p-return", C: 1}, {K: "a-call", A: 15, B: 0}, {K: "p-return", A: 0, B: 1, C: 1}, {K: "a-getcap", A: 15, B: 0}, {K: "a-release-answer", A: 15}, {K: "a-call", A: 0, B: 3}, {K: "a-release-client", A: 15}},
+}
+var shapes = []string{"", "", "", "", "", "cancelled-call-with-param-cap", "return-releases-param-cap", "finish-rrc-before-return", "partial-releases", "import-handed-back"}
+
 func genCase(t *rapid.T) vat.Case {
 	c := vat.Case{CloseAt: -1, Burst: rapid.IntRange(0, 3).Draw(t, "burst") == 0}
-	if rapid.IntRange(0, 9).Draw(t, "prefix") > 0 {
+	if shape := rapid.SampledFrom(shapes).Draw(t, "shape"); shape != "" {
+		for _, s := range skeletons[shape] {
+			for i, n := 0, rapid.SampledFrom([]int{0, 0, 0, 1, 1, 2}).Draw(t, "fill"); i < n; i++ {
+				c.Steps = append(c.Steps, randStep(t))
+			}
+			c.Steps = append(c.Steps, s)
+		}
+	} else if rapid.IntRange(0, 9).Draw(t, "prefix") > 0 {
 		c.Steps = append(c.Steps, vat.Step{K: "p-boot"}, vat.Step{K: "a-boot"}, vat.Step{K: "p-return", C: 1})
 	}
 	n := rapid.IntRange(3, 40).Draw(t, "n")
